@@ -167,3 +167,46 @@ Example C18_nonvacuous :
   matcher_ok [97; 32; 216; 179; 217; 132; 216; 167; 217; 133; 32; 98]%N       (* an empty match is rejected *)
     [(0, 8, 1%Z, Some (1, [0; 0; -1; -1]%Z))]%nat = false.
 Proof. split; [intros b e d m _ _ H; discriminate | vm_compute; repeat split; reflexivity]. Qed.
+
+(* ---------------------------------------------------------------------------------------------
+   THE RANGE REVERSAL IS THE C TEXT.  dir_reverse of dir.c (the only place where dir_fix writes the order
+   array; DirDefs.dir_reverse is what C18_permutation, C18_identity and C18_runs_reversed speak about) is
+   translated by tools/c2clite.py on every run (GenCFuncs.v, a term of the deep embedding CLite.v).  For
+   EVERY order array in memory and every beg, end: after the call the block holds the model's reversal
+   (mirror image inside [beg, end), every other cell unchanged, same length), and every load and store
+   was inside the array.  The precondition is exactly what the C text needs: beg and end are ints and,
+   when at least one swap happens (beg + 1 < end), end <= length (0 <= beg by its type here). *)
+From NV Require Import CLite CLiteProps GenCFuncs TrUc TrRen.
+
+Theorem C18_tr_dir_reverse : forall m g ord b e d fuel,
+  int_arr_at m g (map Z.of_nat ord) -> ints_ok (map Z.of_nat ord) ->
+  (Z.of_nat b <= 2147483647)%Z -> (Z.of_nat e <= 2147483647)%Z -> (S b < e -> e <= length ord)%nat -> (e - b < fuel)%nat ->
+  callf cprog fuel (S d) F_dir_reverse [VPtr g 0%Z; VInt (Z.of_nat b); VInt (Z.of_nat e)] m
+  = Ok (VUndef, CLiteProps.upd m g (map VInt (map Z.of_nat (dir_reverse ord b e)))).
+Proof. exact tr_dir_reverse. Qed.
+Print Assumptions C18_tr_dir_reverse.
+
+(* what the model's reversal is, cell by cell *)
+Theorem C18_dir_reverse_cells : forall (ord : list nat) b e i d, (e <= length ord)%nat ->
+  length (dir_reverse ord b e) = length ord /\
+  nth i (dir_reverse ord b e) d = if (b <=? i)%nat && (i <? e)%nat then nth (b + e - 1 - i) ord d else nth i ord d.
+Proof. exact dir_reverse_cells. Qed.
+Print Assumptions C18_dir_reverse_cells.
+
+(* the translated function RUNS: the reversal of C18_nonvacuous (characters 2..5 of eight); an empty and a
+   one-cell range store nothing; a range that ends beyond the array is a checked error *)
+Example C18_tr_nonvacuous :
+  let ord := seq 0 8 in
+  let g := length cglobals in
+  let m := cglobals ++ [map VInt (map Z.of_nat ord)] in
+  int_arr_at m g (map Z.of_nat ord) /\ ints_ok (map Z.of_nat ord) /\
+  callf cprog 10 1 F_dir_reverse [VPtr g 0%Z; VInt 2%Z; VInt 6%Z] m
+    = Ok (VUndef, cglobals ++ [map VInt [0; 1; 5; 4; 3; 2; 6; 7]%Z]) /\
+  dir_reverse ord 2 6 = [0; 1; 5; 4; 3; 2; 6; 7]%nat /\
+  callf cprog 10 1 F_dir_reverse [VPtr g 0%Z; VInt 3%Z; VInt 3%Z] m = Ok (VUndef, m) /\
+  callf cprog 10 1 F_dir_reverse [VPtr g 0%Z; VInt 7%Z; VInt 8%Z] m = Ok (VUndef, m) /\
+  callf cprog 10 1 F_dir_reverse [VPtr g 0%Z; VInt 2%Z; VInt 9%Z] m = Err EOob.
+Proof.
+  cbv zeta. split; [reflexivity|]. split; [apply ints_ok_dec; reflexivity|].
+  vm_compute. repeat split; reflexivity.
+Qed.
